@@ -36,6 +36,8 @@ def main():
     nrand = 40 if not thorough else 400
     for k in range(nrand):
         base.append(models.random_model(rng, "rnd%d" % k, max_modes=4 if not thorough else 6))
+        if k % 4 == 1:      # a constant on top: spectrum strictly positive, the vacuum is not at 0 and the ground energy not <= 0
+            base[-1] = models.shifted(base[-1], 128 if k % 8 == 1 else 512)
     for m in base:
         add(m, {"mode": "default"})
         if rng.random() < 0.5 or thorough:
